@@ -326,28 +326,150 @@ Proof.
 Qed.
 
 (* ---- the fields of one !type / !table declaration *)
+(* the field names of the type itself (an in-place tuple is a field of its parent) *)
 Definition item_names (items:list titem) : list string :=
-  flat_map (fun i => match i with TField f => [fd_name f] | TAnno _ => [] end) items.
+  flat_map (fun i => match i with TField f => [fd_name f] | TAnno _ => [] | TTuple n _ _ => [n] end) items.
+(* the listener's name stack after the block (ExitTable reads it for the key): the fields of the type itself *)
+Definition item_allnames (items:list titem) : list string :=
+  flat_map (fun i => match i with TField f => [fd_name f] | TAnno _ => [] | TTuple n arr fs => nnames (NTuple n arr fs) end) items.
 
 Lemma ditems_exact ap tn : forall items fields at_ names fields' at' names',
   ditems ap tn items fields at_ names = Some (fields', at', names') ->
   NoDup (item_names items) ->
-  names' = names ++ item_names items /\
+  names' = names ++ item_allnames items /\
   (forall f, In (TField f) items -> aget (fd_name f) fields' = dfield ap [tn] f) /\
+  (forall n arr fs, In (TTuple n arr fs) items -> aget n fields' = Some (tuple_field n arr)) /\
   (forall n, ~ In n (item_names items) -> aget n fields' = aget n fields).
 Proof.
-  induction items as [|[f|a] r IH]; intros fields at_ names fields' at' names' H Hnd; cbn [ditems item_names flat_map] in *.
-  - injection H as <- <- <-. rewrite app_nil_r. split; [reflexivity|]. split; [intros f []|reflexivity].
+  induction items as [|[f|a|n0 arr0 fs0] r IH]; intros fields at_ names fields' at' names' H Hnd;
+    cbn [ditems item_names item_allnames flat_map] in *.
+  - injection H as <- <- <-. rewrite app_nil_r. split; [reflexivity|]. split; [intros f []|]. split; [intros n arr fs []|reflexivity].
   - destruct (dfield ap [tn] f) as [t|] eqn:Hf; [|discriminate].
     cbn [List.app] in Hnd. inversion Hnd as [|x l Hnotin Hnd' Heq]; subst.
-    destruct (IH _ _ _ _ _ _ H Hnd') as (Hn & Hc & Hs). split; [|split].
+    destruct (IH _ _ _ _ _ _ H Hnd') as (Hn & Hc & Ht & Hs). split; [|split; [|split]].
     + rewrite Hn, <- app_assoc. reflexivity.
     + intros f' [[= <-]|Hin].
       * rewrite (Hs _ Hnotin), aget_aset_eq, Hf. reflexivity.
       * apply Hc, Hin.
+    + intros n arr fs [Hx|Hin]; [discriminate|apply (Ht _ _ _ Hin)].
     + intros n Hn'. cbn [List.app In] in Hn'. rewrite Hs by tauto. apply aget_aset_ne. intros Heq. apply Hn'. left. exact Heq.
-  - destruct (IH _ _ _ _ _ _ H Hnd) as (Hn & Hc & Hs). split; [exact Hn|]. split; [|exact Hs].
-    intros f [Hx|Hin]; [discriminate|apply Hc, Hin].
+  - destruct (IH _ _ _ _ _ _ H Hnd) as (Hn & Hc & Ht & Hs). split; [exact Hn|]. split; [|split; [|exact Hs]].
+    + intros f [Hx|Hin]; [discriminate|apply Hc, Hin].
+    + intros n arr fs [Hx|Hin]; [discriminate|apply (Ht _ _ _ Hin)].
+  - cbn [List.app] in Hnd. inversion Hnd as [|x l Hnotin Hnd' Heq]; subst.
+    destruct (IH _ _ _ _ _ _ H Hnd') as (Hn & Hc & Ht & Hs). split; [|split; [|split]].
+    + rewrite Hn, <- app_assoc. reflexivity.
+    + intros f' [Hx|Hin]; [discriminate|apply Hc, Hin].
+    + intros n arr fs [[= <- <- <-]|Hin].
+      * rewrite (Hs _ Hnotin), aget_aset_eq. reflexivity.
+      * apply (Ht _ _ _ Hin).
+    + intros n Hn'. cbn [List.app In] in Hn'. rewrite Hs by tauto. apply aget_aset_ne. intros Heq. apply Hn'. left. exact Heq.
+Qed.
+
+(* ---- in-place tuples: the types they add to the application *)
+Section NInd.
+  Variable P : nfield -> Prop.
+  Hypothesis Hf : forall f, P (NField f).
+  Hypothesis Ht : forall n arr fs, Forall P fs -> P (NTuple n arr fs).
+  Fixpoint nfield_ind' (x:nfield) : P x :=
+    match x with
+    | NField f => Hf f
+    | NTuple n arr fs =>
+        Ht n arr fs ((fix go (l:list nfield) : Forall P l :=
+                        match l with [] => Forall_nil _ | y :: r => Forall_cons _ (nfield_ind' y) (go r) end) fs)
+    end.
+End NInd.
+
+Fixpoint ntuples (ap path:list string) (l:list nfield) (st:list (string * ty) * list (string * ty)) : option (list (string * ty) * list (string * ty)) :=
+  match l with
+  | [] => Some st
+  | y :: r => match ntuple ap path y st with Some st' => ntuples ap path r st' | None => None end
+  end.
+Lemma ntuple_tuple ap path n arr fs acc :
+  ntuple ap path (NTuple n arr fs) acc =
+    match ntuples ap (path ++ [n]) fs ([], snd acc) with
+    | Some (nf, ts) => Some (aset n (tuple_field n arr) (fst acc), aset (dotted (path ++ [n])) (Ty (KTuple nf) false [] [] "") ts)
+    | None => None
+    end.
+Proof.
+  cbn [ntuple].
+  assert (E : forall st, (fix go (l:list nfield) (st:list (string * ty) * list (string * ty)) {struct l} :=
+               match l with
+               | [] => Some st
+               | y :: r => match ntuple ap (path ++ [n]) y st with Some st' => go r st' | None => None end
+               end) fs st = ntuples ap (path ++ [n]) fs st).
+  { induction fs as [|y r IH]; intros st; cbn [ntuples]; [reflexivity|]. destruct (ntuple ap (path ++ [n]) y st); [apply IH|reflexivity]. }
+  rewrite E. reflexivity.
+Qed.
+
+(* the dotted names of the types an in-place tuple declares, at any depth *)
+Fixpoint ntype_names (path:list string) (x:nfield) : list string :=
+  match x with
+  | NField _ => []
+  | NTuple n _ fs =>
+      dotted (path ++ [n]) ::
+      (fix go (l:list nfield) : list string := match l with [] => [] | y :: r => ntype_names (path ++ [n]) y ++ go r end) fs
+  end.
+Lemma ntype_names_tuple path n arr fs :
+  ntype_names path (NTuple n arr fs) = dotted (path ++ [n]) :: flat_map (ntype_names (path ++ [n])) fs.
+Proof. cbn [ntype_names]. f_equal; induction fs as [|y r IH]; cbn [flat_map]; try reflexivity; rewrite IH; reflexivity. Qed.
+Definition items_type_names (tn:string) (items:list titem) : list string :=
+  flat_map (fun i => match i with TTuple n arr fs => ntype_names [tn] (NTuple n arr fs) | _ => [] end) items.
+
+(* nested_types_exact (one nested field): the application's type names grow by exactly the dotted names of the
+   in-place tuples below it, and every other type is untouched - any depth, any number of fields *)
+Lemma ntuple_types : forall x ap path acc r, ntuple ap path x acc = Some r ->
+  (forall t, In t (keys (snd r)) <-> In t (keys (snd acc)) \/ In t (ntype_names path x)) /\
+  (forall t, ~ In t (ntype_names path x) -> aget t (snd r) = aget t (snd acc)).
+Proof.
+  induction x as [f|n arr fs IH] using nfield_ind'; intros ap path acc r H.
+  - cbn [ntuple] in H. destruct (dfield ap path f); [|discriminate]. injection H as <-. cbn [snd ntype_names In]. split; [tauto|reflexivity].
+  - rewrite ntuple_tuple in H. rewrite ntype_names_tuple.
+    assert (Hl : forall st st', ntuples ap (path ++ [n]) fs st = Some st' ->
+              (forall t, In t (keys (snd st')) <-> In t (keys (snd st)) \/ In t (flat_map (ntype_names (path ++ [n])) fs)) /\
+              (forall t, ~ In t (flat_map (ntype_names (path ++ [n])) fs) -> aget t (snd st') = aget t (snd st))).
+    { clear H. induction IH as [|y r0 Hy _ IHr]; intros st st' Hs; cbn [ntuples flat_map] in *.
+      - injection Hs as <-. cbn [In]. split; [tauto|reflexivity].
+      - destruct (ntuple ap (path ++ [n]) y st) as [st1|] eqn:E; [|discriminate].
+        destruct (Hy _ _ _ _ E) as [K1 A1]. destruct (IHr _ _ Hs) as [K2 A2]. split.
+        + intros t. rewrite K2, K1, in_app_iff. tauto.
+        + intros t Hn. rewrite in_app_iff in Hn. rewrite A2 by tauto. apply A1. tauto. }
+    destruct (ntuples ap (path ++ [n]) fs ([], snd acc)) as [[nf ts]|] eqn:E; [|discriminate]. injection H as <-.
+    destruct (Hl _ _ E) as [K A]. cbn [snd] in *. split.
+    + intros t. rewrite keys_aset, K. cbn [In]. intuition congruence.
+    + intros t Hn. cbn [In] in Hn. rewrite aget_aset_ne by tauto. apply A. tauto.
+Qed.
+
+Lemma items_ntypes ap tn : forall items ts ts', fold_opt (item_ntypes ap tn) items ts = Some ts' ->
+  (forall t, In t (keys ts') <-> In t (keys ts) \/ In t (items_type_names tn items)) /\
+  (forall t, ~ In t (items_type_names tn items) -> aget t ts' = aget t ts).
+Proof.
+  induction items as [|i r IH]; intros ts ts' H; cbn [fold_opt items_type_names flat_map] in *.
+  - injection H as <-. cbn [In]. split; [tauto|reflexivity].
+  - destruct (item_ntypes ap tn ts i) as [ts1|] eqn:E; [|discriminate]. destruct (IH _ _ H) as [K A].
+    fold (items_type_names tn r) in *.
+    assert (H1 : (forall t, In t (keys ts1) <-> In t (keys ts) \/ In t (match i with TTuple n arr fs => ntype_names [tn] (NTuple n arr fs) | _ => [] end)) /\
+                 (forall t, ~ In t (match i with TTuple n arr fs => ntype_names [tn] (NTuple n arr fs) | _ => [] end) -> aget t ts1 = aget t ts)).
+    { destruct i as [f|a|n arr fs]; cbn [item_ntypes] in E.
+      - injection E as <-. cbn [In]. split; [tauto|reflexivity].
+      - injection E as <-. cbn [In]. split; [tauto|reflexivity].
+      - destruct (ntuple ap [tn] (NTuple n arr fs) ([], ts)) as [[x ts2]|] eqn:E2; [|discriminate]. injection E as <-.
+        apply (ntuple_types _ _ _ _ _ E2). }
+    destruct H1 as [K1 A1]. split.
+    + intros t. rewrite K, K1, in_app_iff. tauto.
+    + intros t Hn. rewrite in_app_iff in Hn. rewrite A by tauto. apply A1. tauto.
+Qed.
+(* without in-place tuples nothing is added *)
+Definition no_tuple (i:titem) : bool := match i with TTuple _ _ _ => false | _ => true end.
+Lemma items_ntypes_none ap tn : forall items ts, forallb no_tuple items = true -> fold_opt (item_ntypes ap tn) items ts = Some ts.
+Proof.
+  induction items as [|i r IH]; intros ts H; cbn [fold_opt forallb] in *; [reflexivity|].
+  apply andb_true_iff in H as [Hi Hr]. destruct i; cbn [no_tuple] in Hi; try discriminate; cbn [item_ntypes]; apply IH, Hr.
+Qed.
+Lemma allnames_no_tuple : forall items, forallb no_tuple items = true -> item_allnames items = item_names items.
+Proof.
+  induction items as [|i r IH]; cbn [forallb]; intros H; [reflexivity|]. apply andb_true_iff in H as [Hi Hr].
+  unfold item_allnames, item_names in *. cbn [flat_map]. rewrite (IH Hr). destruct i; cbn [no_tuple] in Hi; try discriminate; reflexivity.
 Qed.
 
 (* table_declared_exact: declaring a new !type / !table creates exactly that type, with exactly the declared
@@ -357,22 +479,29 @@ Qed.
 Theorem table_declared_exact : forall ap a table n es items a',
   dtable ap a table n es false items = Some a' -> aget n (a_types a) = None -> NoDup (item_names items) ->
   exists fields at_,
-    aget n (a_types a') = Some (Ty (if table then KRel fields (add_pks fields (item_names items) []) else KTuple fields) false [] at_ "") /\
+    aget n (a_types a') = Some (Ty (if table then KRel fields (add_pks fields (item_allnames items) []) else KTuple fields) false [] at_ "") /\
     (forall f, In (TField f) items -> aget (fd_name f) fields = dfield ap [n] f) /\
+    (forall f arr fs, In (TTuple f arr fs) items -> aget f fields = Some (tuple_field f arr)) /\
     (forall x, aget x fields <> None -> In x (item_names items)) /\
-    (forall n', n' <> n -> aget n' (a_types a') = aget n' (a_types a)) /\
+    (forall n', n' <> n -> ~ In n' (items_type_names n items) -> aget n' (a_types a') = aget n' (a_types a)) /\
+    (forall n', In n' (keys (a_types a')) <-> In n' (keys (a_types a)) \/ n' = n \/ In n' (items_type_names n items)) /\
     a_eps a' = a_eps a /\ a_attrs a' = a_attrs a /\ a_mixins a' = a_mixins a.
 Proof.
   intros ap a table n es items a' H Hnew Hnd. unfold dtable in H. rewrite Hnew in H.
+  destruct (fold_opt (item_ntypes ap n) items (a_types a)) as [ts|] eqn:Hts; [|discriminate].
   destruct (ditems ap n items [] _ []) as [[[fields at2] names]|] eqn:Hd; [|discriminate].
-  destruct (ditems_exact _ _ _ _ _ _ _ _ _ Hd Hnd) as (Hn & Hc & Hs). cbn [List.app] in Hn. subst names.
+  destruct (ditems_exact _ _ _ _ _ _ _ _ _ Hd Hnd) as (Hn & Hc & Htu & Hs). cbn [List.app] in Hn. subst names.
+  destruct (items_ntypes _ _ _ _ _ Hts) as [K A].
   injection H as <-. exists fields, at2. cbn [negb]. repeat split.
   - unfold put_type, set_types. cbn [a_types]. rewrite aget_aset_eq. destruct table; cbn [negb]; [|reflexivity].
     reflexivity.
   - exact Hc.
+  - exact Htu.
   - intros x Hx. destruct (in_dec string_dec x (item_names items)) as [|Hnot]; [assumption|].
     rewrite (Hs _ Hnot) in Hx. cbn in Hx. congruence.
-  - intros n' Hne. unfold put_type, set_types. cbn [a_types]. apply aget_aset_ne. congruence.
+  - intros n' Hne Hnot. unfold put_type, set_types. cbn [a_types]. rewrite aget_aset_ne by congruence. apply A, Hnot.
+  - unfold put_type, set_types. cbn [a_types]. rewrite keys_aset, K. intuition.
+  - unfold put_type, set_types. cbn [a_types]. rewrite keys_aset, K. intuition.
 Qed.
 
 (* endpoint_declared_exact: declaring a new simple endpoint creates exactly that endpoint: its name, its
@@ -514,12 +643,13 @@ Corollary table_declared_exact_wf : forall ap a table n es items a',
   member_fields_ok (MType table n es false items) = true ->
   dtable ap a table n es false items = Some a' -> aget n (a_types a) = None ->
   exists fields at_,
-    aget n (a_types a') = Some (Ty (if table then KRel fields (add_pks fields (item_names items) []) else KTuple fields) false [] at_ "") /\
+    aget n (a_types a') = Some (Ty (if table then KRel fields (add_pks fields (item_allnames items) []) else KTuple fields) false [] at_ "") /\
     (forall f, In (TField f) items -> aget (fd_name f) fields = dfield ap [n] f) /\
+    (forall f arr fs, In (TTuple f arr fs) items -> aget f fields = Some (tuple_field f arr)) /\
     (forall x, aget x fields <> None -> In x (item_names items)).
 Proof.
   intros ap a table n es items a' Hwf H Hnew. cbn [member_fields_ok] in Hwf.
-  destruct (table_declared_exact _ _ _ _ _ _ _ H Hnew (nodupb_NoDup _ Hwf)) as (fields & at_ & H1 & H2 & H3 & _).
+  destruct (table_declared_exact _ _ _ _ _ _ _ H Hnew (nodupb_NoDup _ Hwf)) as (fields & at_ & H1 & H2 & H3 & H4 & _).
   exists fields, at_. auto.
 Qed.
 
@@ -560,7 +690,8 @@ Definition valid_items (items:list (string * Z)) : list (string * Z) :=
 (* the type names a member puts into its application (an enum without a usable item declares nothing) *)
 Definition member_type_names (mem:member) : list string :=
   match mem with
-  | MType _ n _ _ _ | MAlias n _ _ _ _ _ | MUnion n _ _ _ => [n]
+  | MType _ n _ _ items => n :: items_type_names n items          (* the type and its in-place tuples, at any depth *)
+  | MAlias n _ _ _ _ _ | MUnion n _ _ _ => [n]
   | MEnum n _ _ items => match valid_items items with [] => [] | _ => [n] end
   | _ => []
   end.
@@ -590,9 +721,15 @@ Proof.
   destruct mem; cbn [dmember member_type_names]; intros H.
   - eapply upd_types; [exact H|]. intros a0 a' _ [= <-]. apply same_types_extra. reflexivity.
   - eapply upd_types; [exact H|]. intros a0 a' _ Hf. unfold dtable in Hf.
+    destruct (fold_opt (item_ntypes ap n) items (a_types a0)) as [ts|] eqn:Hts.
+    2:{ destruct (aget n (a_types a0)) as [[k1 o c at_ d|]|];
+          repeat match type of Hf with context [match ?x with _ => _ end] => destruct x end; discriminate. }
+    destruct (items_ntypes _ _ _ _ _ Hts) as [K _].
+    assert (Hp : forall v t, In t (keys (a_types (put_type (set_types a0 ts) n v))) <-> In t (keys (a_types a0)) \/ In t (n :: items_type_names n items)).
+    { intros v t. unfold put_type, set_types. cbn [a_types In]. rewrite keys_aset, K. intuition congruence. }
     destruct (aget n (a_types a0)) as [[k1 o c at_ d|]|];
       repeat match type of Hf with context [match ?x with _ => _ end] => destruct x end;
-      try discriminate; injection Hf as <-; apply put_type_extra.
+      try discriminate; injection Hf as <-; apply Hp.
   - eapply upd_types; [exact H|]. intros a0 a' _ [= <-]. unfold denum. fold (valid_items items).
     destruct (valid_items items); [apply same_types_extra; reflexivity|apply put_type_extra].
   - eapply upd_types; [exact H|]. intros a0 a' _ Hf. unfold dalias in Hf.
@@ -659,6 +796,27 @@ Theorem listen_types_exact : forall s m, listen s = Some m ->
 Proof.
   intros s m H k t. unfold listen in H. rewrite (dblocks_types _ _ _ H). unfold types_of at 1. cbn [aget In]. unfold declared_types. tauto.
 Qed.
+
+(* in-place tuples, any depth: their dotted type names are part of the declared names *)
+Example listen_types_exact_inplace :
+  match listen [[Bk ["A"] None []
+     [MType true "R" [] false [TField (Fd "id" false CNone (XNative NInt) ZNone false [ETag "pk"] [] None);
+                               TTuple "inner" false [NField (Fd "a" false CNone (XNative NInt) ZNone false [] [] None)];
+                               TField (Fd "z" false CNone (XNative NInt) ZNone false [] [] None)];
+      MType false "T" [] false [TTuple "addr" true [NField (Fd "street" false CNone (XNative NString) ZNone false [] [] None);
+                                                    NTuple "geo" false [NField (Fd "back" false CNone (XLocal "T") ZNone false [] [] None)]]]]]]
+  with
+  | Some m => types_of m "A" = ["R.inner"; "R"; "T.addr.geo"; "T.addr"; "T"] /\
+              declared_types [[Bk ["A"] None [] [MType false "T" [] false [TTuple "addr" true [NTuple "geo" false []]]]]] "A" = ["T"; "T.addr"; "T.addr.geo"] /\
+              match aget "A" m with
+              | Some a => aget "T" (a_types a) = Some (Ty (KTuple [("addr", Ty (KList (Ty (KRef None (Sc [] ["addr"])) false [] [] "")) false [] [] "")]) false [] [] "") /\
+                          aget "T.addr.geo" (a_types a) = Some (Ty (KTuple [("back", Ty (KRef (Some (Sc ["A"] ["T"; "addr"; "geo"])) (Sc [] ["T"])) false [] [] "")]) false [] [] "") /\
+                          match aget "R" (a_types a) with Some (Ty (KRel fs pk) _ _ _ _) => keys fs = ["id"; "inner"; "z"] /\ pk = ["id"] | _ => False end
+              | None => False
+              end
+  | None => False
+  end.
+Proof. vm_compute. repeat split; reflexivity. Qed.
 
 Example listen_types_exact_nonvacuous :
   match listen [[Bk ["A"] None [] [MEnum "E" [] [] [("a", 70000%Z)]; MEndpoint "Ep" None [] [] [] [XRet "ok"]];
